@@ -362,6 +362,17 @@ class Metadata(CbMixin, ProgMixin):
                         dest_path = os.path.join(dest, pathnode.path)
                         self._update()
                         self.cb(pathnode.path, dest_path, self.num_pieces)
+        # empty files after the last piece belong to no piece node
+        for entry in self.files:
+            if entry["length"] or entry["full"] in copied:
+                continue
+            for loc, size in filemap.get(entry["filename"], []):
+                if size == 0:
+                    dest_path = os.path.join(dest, entry["full"])
+                    copypath(loc, dest_path)
+                    self._update()
+                    self.cb(entry["path"], dest_path, self.num_pieces)
+                    break
 
     def _match_v2(self, filemap: dict, dest: str):
         """
